@@ -59,7 +59,7 @@ MANIFEST = {
             "pattern oracle; the C08 model for granular-marking selectors; the harness (generators, the output-repair "
             "classification of known findings: an invalid emission counts as a known finding only if ONE named repair of the "
             "output makes it valid). The model-to-code tie is the correspondence run (exact output text and error class on "
-            "~2300 generated calls per quick run, 24 run-time detected variant switches, worker under a local time zone 14 h "
+            "~2450 generated calls per quick run, 24 run-time detected variant switches, worker under a local time zone 14 h "
             "from UTC, JSON text / file-object argument forms, call sequences in one process) plus the oracle: every strict "
             "success of the implementation is serialized and judged by the kernel-evaluated valid_obj_x.",
     "technique": "Coq proof over a hand-written interpreter model + tables generated from source; kernel-evaluated table "
